@@ -96,6 +96,7 @@ func (c *Ctx) t1ClosureKinds(fn *ssa.Function) map[*ssa.Function]string {
 			kinds[an] = kind
 		}
 	}
+	c.t1HelperKindsX3(fn, opVal, kinds) // path helpers that are methods or functions (ext_x3.go)
 	return kinds
 }
 
@@ -183,10 +184,23 @@ func (m *t1Machine) runX(code []byte, stack, ps, flex []sv, flags map[string]boo
 	fn := m.fn
 	ev := &ssaEval{c: c, bind: map[ssa.Value]sv{}, mem: map[string]sv{}}
 	out := t1Outcome{}
+	nonNilSyms, ambiguous, globalOfSym := map[string]bool{}, map[string]bool{}, map[string]*ssa.Global{}
+	ev.oracle = errOracleX3(nonNilSyms)
 	ev.load = func(ld *ssa.UnOp, addr sv) (sv, bool) {
 		a := addr.s
 		if strings.HasPrefix(a, "global:") {
-			return symV(a[strings.LastIndex(a, ".")+1:]), true
+			name := a[strings.LastIndex(a, ".")+1:]
+			// an error value kept in a package-level variable is not nil (ext_x3.go); two variables
+			// of the same name in different packages are not told apart by the symbol: no answer
+			if g, ok := ld.X.(*ssa.Global); ok {
+				if prev, seen := globalOfSym[name]; seen && prev != g {
+					delete(nonNilSyms, name)
+					ambiguous[name] = true
+				} else if globalOfSym[name] = g; !ambiguous[name] && c.nonNilErrorGlobalX3(g) {
+					nonNilSyms[name] = true
+				}
+			}
+			return symV(name), true
 		}
 		if m.subrs != nil && isByteSliceSlice(ld.Type()) {
 			var el []sv
@@ -202,9 +216,12 @@ func (m *t1Machine) runX(code []byte, stack, ps, flex []sv, flags map[string]boo
 			return sv{}, false
 		}
 		cc := call.Common()
-		if mc, ok := cc.Value.(*ssa.MakeClosure); ok {
-			if k := m.kinds[mc.Fn.(*ssa.Function)]; k != "" && k != "clear" && !m.inlineHelpers {
+		// a path helper is a closure of the decoder, or a method / function it calls: its operands
+		// are the real-valued arguments (not the receiver or the objects it works on)
+		if sc := cc.StaticCallee(); sc != nil && !cc.IsInvoke() {
+			if k := m.kinds[sc]; k != "" && k != "clear" && !m.inlineHelpers {
 				var p []string
+				args = helperOperandsX3(sc, args)
 				for _, a := range args {
 					p = append(p, a.String())
 				}
@@ -381,6 +398,7 @@ func (m *t1Machine) runX(code []byte, stack, ps, flex []sv, flags map[string]boo
 			}
 		}
 	}
+	m.presetStateFieldsX3(ev, fr, flags, boolCells) // decoder state kept in fields of a local object (ext_x3.go)
 	ev.effects, ev.why = nil, ""
 	var from *ssa.BasicBlock
 	_, from, ret := ev.runBlocks(fr, m.inner, nil, func(next, f *ssa.BasicBlock) bool {
@@ -708,10 +726,11 @@ func (c *Ctx) t1FlexRules() {
 	c.check(o1.back && o1.flex == "[]" && flag != "", "T1-FLEX", fname, "othersubr 1 starts a flex sequence: the buffer is emptied and the flex mode is switched on", pos, "flex buffer [] and mode flag set", fmt.Sprintf("othersubr 1 leaves the flex buffer %s and sets no flex mode flag (%s)", o1.flex, o1.why))
 	// othersubr 2: record the current point
 	o2 := m.othersubr(2, nil, nil, syms("f", 2))
-	okPoint := o2.back && strings.HasPrefix(o2.flex, "[f0 f1 v:") && len(strings.Fields(o2.flex)) == 4
+	okPoint := o2.back && strings.HasPrefix(o2.flex, "[f0 f1 ") && len(strings.Fields(o2.flex)) == 4
 	if okPoint {
+		// two distinct numeric state variables of the decoder (locals, or fields of a local object)
 		f := strings.Fields(strings.Trim(o2.flex, "[]"))
-		okPoint = f[2] != f[3]
+		okPoint = f[2] != f[3] && isStateSymX3(f[2]) && isStateSymX3(f[3])
 	}
 	c.check(okPoint, "T1-FLEX", fname, "othersubr 2 records the current point", pos, o2.flex, "othersubr 2 does not append the current point (x, y) to the flex buffer: "+o2.flex+" "+o2.why)
 	// othersubr 0: seven points → two curves from points 1..6
